@@ -76,12 +76,13 @@ RECURSIVE DlvOK(_, _, _, _)
 \* deliveries of one call continue the peer's stream contiguously
 DlvOK(dl, i, pos, limit) ==
     IF i > Len(dl) THEN TRUE
+    ELSE IF dl[i].pos < 0 THEN dl[i].ok = 1 /\ DlvOK(dl, i + 1, pos, limit)     \* TLS 1.3 early data: a stream of its own
     ELSE /\ dl[i].ok = 1
          /\ dl[i].pos = pos
          /\ pos + dl[i].len <= limit
          /\ DlvOK(dl, i + 1, pos + dl[i].len, limit)
 
-SumLen(dl) == LET RECURSIVE S(_) S(i) == IF i > Len(dl) THEN 0 ELSE dl[i].len + S(i + 1) IN S(1)
+SumLen(dl) == LET RECURSIVE S(_) S(i) == IF i > Len(dl) THEN 0 ELSE (IF dl[i].pos < 0 THEN 0 ELSE dl[i].len) + S(i + 1) IN S(1)
 
 TDeliver ==
     /\ IsEvent({"deliver"})
